@@ -96,6 +96,32 @@ Definition is_one (x : f64) : bool := feq x fone.
 
 Record ost := mkOst { os_pool : list value; os_ctx : pctx }.
 
+(** equality of values, subs and anonymous maps compared as maps (the implementation holds
+    them in hash tables) *)
+Fixpoint vsame (a b : value) {struct a} : bool :=
+  match a, b with
+  | VReal x, VReal y => fbits_eq x y
+  | VInt x, VInt y => Z.eqb x y
+  | VBool x, VBool y => Bool.eqb x y
+  | VSub m, VSub m' =>
+      Nat.eqb (length m) (length m') && nodup_s (map fst m') &&
+      (fix go (l : list (string * value)) : bool :=
+         match l with [] => true | (k, x) :: r => match slookup k m' with Some y => vsame x y && go r | None => false end end) m
+  | VArray l, VArray l' =>
+      (fix go (l l' : list value) : bool :=
+         match l, l' with [], [] => true | x :: r, y :: r' => vsame x y && go r r' | _, _ => false end) l l'
+  | VAnonMap m, VAnonMap m' =>
+      Nat.eqb (length m) (length m') && nodup_n (map fst m') &&
+      (fix go (l : list (N * value)) : bool :=
+         match l with [] => true | (k, x) :: r => match nlookup k m' with Some y => vsame x y && go r | None => false end end) m
+  | VVariant n x, VVariant n' y => String.eqb n n' && vsame x y
+  | VEnum n, VEnum n' => String.eqb n n'
+  | VOptional None, VOptional None => true
+  | VOptional (Some x), VOptional (Some y) => vsame x y
+  | VConst, VConst => true
+  | _, _ => false
+  end.
+
 Section Judge.
   Variable o : ops_obs.
   Let s := oo_spec o.
@@ -129,8 +155,12 @@ Section Judge.
         end
     end.
 
+  (** the value every chain starts from is [Spec::initial_value()]: it must be the model's
+      [init_val] (rejection kind 4) *)
   Definition accept : option (N * N) :=
-    sim (oo_ops o) (mkOst [oo_v0 o] (add_nodes (oo_v0 o) [] [])) 0.
+    if vsame (init_val s) (oo_v0 o)
+    then sim (oo_ops o) (mkOst [oo_v0 o] (add_nodes (oo_v0 o) [] [])) 0
+    else Some (0, 4)%N.
 
   (** pool as produced by the implementation (independent of the acceptor) *)
   Fixpoint pool_of (l : list op) (acc : list value) : list value :=
